@@ -99,7 +99,10 @@ class Report:
 
     # ---- verdict
     def failed(self):
-        return [o for o in self.obligations if not o.ok]
+        return [o for o in self.obligations if not o.ok and not o.detail.get("undecided")]
+
+    def undecided(self):
+        return [o for o in self.obligations if not o.ok and o.detail.get("undecided")]
 
 
 def load_known():
@@ -148,7 +151,7 @@ def finish(rep: Report, write_evidence=True, quiet=False) -> int:
         write_evidence_file(rep, violations, knowns, wall)
     if not quiet:
         n = len(rep.obligations)
-        d = n - len(rep.failed())
+        d = n - len(rep.failed()) - len(rep.undecided())
         print(f"[{rep.prop}] tier={rep.tier} obligations={n} discharged={d} known_findings={len(knowns)} "
               f"violations={len(violations)} functions={len(rep.functions)} wall={wall:.2f}s")
         for l in out:
@@ -174,7 +177,7 @@ def write_evidence_file(rep: Report, violations, knowns, wall):
     os.makedirs(EVIDENCE_DIR, exist_ok=True)
     n = len(rep.obligations)
     failed = rep.failed()
-    discharged = n - len(failed)
+    discharged = n - len(failed) - len(rep.undecided())
     samples = []
     seen_rules = set()
     for o in rep.obligations:
@@ -200,6 +203,7 @@ def write_evidence_file(rep: Report, violations, knowns, wall):
         "exhaustive": True,
         "known_findings_matched": [o.finding_key(rep.prop) for o, _ in knowns],
         "failed_obligations": [{"rule": o.rule, "construct": o.construct, "where": o.where, "what": o.what} for o in failed],
+        "undecided_obligations": [{"rule": o.rule, "construct": o.construct, "why": o.detail.get("undecided")} for o in rep.undecided()],
         "notes": rep.notes,
     }
     if rep.selftest is not None:
